@@ -103,6 +103,23 @@ def gen_interp():
                 add('np_interp', f"np_interp|{srats(xs)}|{srats(xp)}|{srats(fp)}|{sopt(l)}|{sopt(r)}", run_py(f))
 
 
+    # random strictly increasing grids with power-of-two spacings (slopes are then exact doubles)
+    rnd = random.Random(5)
+    for case in range(60):
+        n = rnd.choice([1, 2, 3, 5, 8])
+        xp = [Fr(rnd.randint(-8, 8), 4)]
+        for _ in range(n - 1):
+            xp.append(xp[-1] + Fr(rnd.choice([1, 2, 4, 8]), rnd.choice([1, 2, 4, 8])))
+        fp = [Fr(rnd.randint(-16, 16), rnd.choice([1, 2, 4])) for _ in range(n)]
+        xs = [xp[0] - 1, xp[-1] + Fr(1, 2)] + list(xp) + [xp[0] + Fr(rnd.randint(0, 64), 8) for _ in range(8)]
+        l, r = rnd.choice([(None, None), (Fr(0), Fr(0)), (Fr(-3), Fr(5, 2))])
+        def f(fp=fp, xp=xp, xs=xs, l=l, r=r):
+            out = np.interp(np.array([float(x) for x in xs]), np.array([float(v) for v in xp]), np.array([float(v) for v in fp]),
+                            left=None if l is None else float(l), right=None if r is None else float(r))
+            return [[fr(v) for v in out]]
+        add('np_interp', f"np_interp|{srats(xs)}|{srats(xp)}|{srats(fp)}|{sopt(l)}|{sopt(r)}", run_py(f))
+
+
 # ---------------------------------------------------------------- C14
 def impl_factor(dt, target):
     """the impl's decision, replicated on the same binary64 operations, returned as the exact rational it means"""
@@ -151,6 +168,17 @@ def gen_timestep():
                     if Fr(dt / target) == q and (q >= 1 or Fr(1 / (dt / target)) == 1 / q):
                         add('factor_rule', f"factor_rule|{srat(dt)}|{srat(target)}", ('ok', [[fct]]))
                         add('interp_array_to_approx_dt(exact q)', f"interp_array_to_approx_dt|{srats(vals)}|{srat(dt)}|{srat(target)}|{sbool(even)}", exp, meta)
+    # long records
+    for n in [100, 257, 400]:
+        vals = [random.randint(-50, 50) for _ in range(n)]
+        for dt, target in [(1.0, 0.5), (0.5, 1.0), (0.25, 0.75), (1.0, 0.25), (1.0, 9.0), (0.5, 0.5)]:
+            for even in (True, False):
+                fct = impl_factor(dt, target)
+                def f(vals=vals, dt=dt, target=target, even=even):
+                    out, ndt = ts.interp_array_to_approx_dt(np.array(vals, dtype=float), dt, target, even=even)
+                    return [[fr(v) for v in out], [fr(ndt)]]
+                add('interp_array_to_approx_dt', f"interp_to_approx_dt|{srats(vals)}|{srat(dt)}|{srat(fct)}|{sbool(even)}", run_py(f),
+                    {'exact': True, 'k': fct})
     # object level wrapper interp_to_approx_dt and resample_to_approx_dt (length / new dt only)
     for vals in recs[2:]:
         for dt in [1.0, 0.5, 0.25]:
